@@ -20,7 +20,7 @@
                   `processSection_atomic`);
       `Tr P Q`    Hoare triples on normal completion; `Honest s := (hadFailure ↔ a bad event was printed)`
                   (`honest_walk`, `processSection_honest`, `sectionLoop_honest`, `processPatchM_honest`);
-  * `writeNow` (make writable, backup, write, permission callback — the common part of the direct write and of
+  * `writeNow` (backup, make writable, write, permission callback — the common part of the direct write and of
     `DeferredWriter::finalize`: `writePatchedResult_direct`, `finalizeDeferred_eq`), `writeNow_shape` (its operations),
     `removeNow` (one deferred removal: backup if due, then removal if the file is still there; `removeNow_trExt`),
     `ChmodLate` / `Late` (`late_walk`, `processSection_late`, `finalizeDeferred_late`, `processPatchM_late`),
@@ -1325,20 +1325,21 @@ theorem processPatchM_honest (o : Options) : Tr Honest Honest (processPatchM o) 
 theorem runPatch_honest (o : Options) (s0 s : DState) (h0 : Honest s0) (h : (processPatchM o).run s0 = (.ok (), s)) :
     Honest s := (processPatchM_honest o).ok _ _ _ h h0
 
-/-! ### the write of one file (`writeNow`): `make_writable`, backup, `creat`/`write`, permission callback
+/-! ### the write of one file (`writeNow`): backup, `make_writable`, `creat`/`write`, permission callback
 
 `writeNow` is the common part of the direct branch of `writePatchedResult` (`writePatchedResult_direct`) and of the loop
-body of `finalizeDeferred` (`finalizeDeferred_eq`).  `writeNow_shape`: the operations it performs are `W ++ B ++ C` with
-`W` the `chmod` of a read-only target (or nothing), `B` the backup (`rename` to the backup name / `creat` of an empty backup,
-or nothing), `C` the `creat` of the target followed by its `write` and the `chmod` of the permission callback.
-`ChmodLate`: every `chmod` comes after the `creat` of the same path, or directly before the backup / creation it prepares
+body of `finalizeDeferred` (`finalizeDeferred_eq`).  `writeNow_shape`: the operations it performs are `M ++ B ++ W ++ C` with
+`M` the `mkdir`s of the directories of the backup name, `B` the backup (`rename` to the backup name / `creat` of an empty backup,
+or nothing), `W` the `chmod` of a read-only target that is still there (or nothing), `C` the `creat` of the target followed by
+its `write` and the `chmod` of the permission callback.
+`ChmodLate`: every `chmod` comes after the `creat` of the same path, or directly before the creation it prepares
 (or is the last operation before an I/O error); `Late m := Spec LateR LateE m`, `processSection_late`, `finalizeDeferred_late`,
 `processPatchM_late`. -/
 
 /-- the immediate write of one file -/
 def writeNow (o : Options) (out : Bytes) (perm : PermResult) (sb : Bool) (content : Bytes) (nm : Nat) : DM Unit :=
-  makeWritable perm out >>= fun _ =>
   (if sb = true then makeBackupFor o out else pure ()) >>= fun _ =>
+  makeWritable perm out >>= fun _ =>
   writeFile out content >>= fun _ =>
   permissionCallback nm perm out
 
@@ -1391,6 +1392,8 @@ theorem makeWritable_shape (perm : PermResult) (p : Bytes) {s s1 : DState} {r : 
     s1.cwd = s.cwd ∧ s1.backedUp = s.backedUp ∧ ∃ W, s1.trace = s.trace ++ W ∧
       (W = [] ∨ ∃ m, W = [FsOp.chmod (absPath s p) m]) ∧ (∀ e, r = .error e → e = .systemError ∧ W = []) := by
   unfold makeWritable at h
+  rw [run_bind, run_fsExists] at h
+  dsimp only at h
   split at h
   · split at h
     · rw [run_opChmod] at h
@@ -1499,28 +1502,26 @@ theorem permissionCallback_shape (nm : Nat) (perm : PermResult) (p : Bytes) {s s
 
 theorem writeNow_shape (o : Options) (out : Bytes) (perm : PermResult) (sb : Bool) (content : Bytes) (nm : Nat)
     {s s' : DState} {r : Except Exn Unit} (h : (writeNow o out perm sb content nm).run s = (r, s')) :
-    s'.cwd = s.cwd ∧ ∃ W M B C, s'.trace = s.trace ++ W ++ M ++ B ++ C ∧
-      (W = [] ∨ ∃ m, W = [FsOp.chmod (absPath s out) m]) ∧
+    s'.cwd = s.cwd ∧ ∃ M B W C, s'.trace = s.trace ++ M ++ B ++ W ++ C ∧
       (∀ op ∈ M, ∃ d ∈ dirPrefixes (backupName o out), op = FsOp.mkdir (absPath s d)) ∧
       (B = [] ∨ B = [FsOp.rename (absPath s out) (absPath s (backupName o out))] ∨
         B = [FsOp.creat (absPath s (backupName o out))]) ∧
+      (W = [] ∨ ∃ m, W = [FsOp.chmod (absPath s out) m]) ∧
       (C = [] ∨ ∃ C', C = FsOp.creat (absPath s out) :: C' ∧
         ∀ op ∈ C', (∃ b, op = FsOp.write (absPath s out) b) ∨ ∃ m, op = FsOp.chmod (absPath s out) m) ∧
-      (sb = true → s.backedUp.contains (backupName o out) = false → B = [] → C = []) ∧
+      (sb = true → s.backedUp.contains (backupName o out) = false → B = [] → W = [] ∧ C = []) ∧
       (sb = false ∨ s.backedUp.contains (backupName o out) = true → M = [] ∧ B = []) ∧
       (r = .ok () → C ≠ []) ∧ (∀ e, r = .error e → e = .systemError) := by
   unfold writeNow at h
   rw [run_bind] at h
   split at h
   · next _ s1 h1 =>
-    obtain ⟨c1, b1, W, t1, hW, -⟩ := makeWritable_shape _ _ h1
+    obtain ⟨c1, M, B, t1, hM, hB, hB1, hB2, -⟩ := backupStep_shape _ _ _ h1
     rw [run_bind] at h
     split at h
     · next _ s2 h2 =>
-      obtain ⟨c2, M, B, t2, hM, hB, hB1, hB2, -⟩ := backupStep_shape _ _ _ h2
-      rw [absPath_cwd c1, absPath_cwd c1] at hB
-      simp only [absPath_cwd c1] at hM
-      rw [b1] at hB1 hB2
+      obtain ⟨c2, -, W, t2, hW, -⟩ := makeWritable_shape _ _ h2
+      rw [absPath_cwd c1] at hW
       rw [run_bind] at h
       split at h
       · next _ s3 h3 =>
@@ -1529,7 +1530,7 @@ theorem writeNow_shape (o : Options) (out : Bytes) (perm : PermResult) (sb : Boo
         rw [absPath_cwd (c2.trans c1)] at hC1
         rw [absPath_cwd (c3.trans (c2.trans c1))] at hC2
         have hne := hne rfl
-        refine ⟨c4.trans (c3.trans (c2.trans c1)), W, M, B, C1 ++ C2, ?_, hW, hM, hB, ?_, ?_, hB2, ?_, herr⟩
+        refine ⟨c4.trans (c3.trans (c2.trans c1)), M, B, W, C1 ++ C2, ?_, hM, hB, hW, ?_, ?_, hB2, ?_, herr⟩
         · rw [t4, t3, t2, t1]; simp only [List.append_assoc]
         · rcases hC1 with h | ⟨C', rfl, hC'⟩
           · exact absurd h hne
@@ -1548,7 +1549,8 @@ theorem writeNow_shape (o : Options) (out : Bytes) (perm : PermResult) (sb : Boo
         cases h
         obtain ⟨c3, C1, t3, hC1, -, herr⟩ := writeFile_shape _ _ h3
         rw [absPath_cwd (c2.trans c1)] at hC1
-        refine ⟨c3.trans (c2.trans c1), W, M, B, C1, ?_, hW, hM, hB, ?_, ?_, hB2, fun he => (by cases he), fun e he => (by cases he; exact herr _ rfl)⟩
+        refine ⟨c3.trans (c2.trans c1), M, B, W, C1, ?_, hM, hB, hW, ?_, ?_, hB2, fun he => (by cases he),
+          fun e he => (by cases he; exact herr _ rfl)⟩
         · rw [t3, t2, t1]
         · rcases hC1 with h | ⟨C', rfl, hC'⟩
           · exact Or.inl h
@@ -1557,17 +1559,17 @@ theorem writeNow_shape (o : Options) (out : Bytes) (perm : PermResult) (sb : Boo
           exact absurd hb (hB1 hsb hn rfl)
     · next e s2 h2 =>
       cases h
-      obtain ⟨c2, M, B, t2, hM, hB, -, hB2, herr⟩ := backupStep_shape _ _ _ h2
-      rw [absPath_cwd c1, absPath_cwd c1] at hB
-      simp only [absPath_cwd c1] at hM
-      rw [b1] at hB2
-      refine ⟨c2.trans c1, W, M, B, [], ?_, hW, hM, hB, Or.inl rfl, fun _ _ _ => rfl, hB2, fun he => (by cases he),
+      obtain ⟨c2, -, W, t2, hW, herr⟩ := makeWritable_shape _ _ h2
+      rw [absPath_cwd c1] at hW
+      refine ⟨c2.trans c1, M, B, W, [], ?_, hM, hB, hW, Or.inl rfl, ?_, hB2, fun he => (by cases he),
         fun e he => (by cases he; exact (herr _ rfl).1)⟩
-      rw [t2, t1]; simp
+      · rw [t2, t1]; simp
+      · intro hsb hn hb
+        exact absurd hb (hB1 hsb hn rfl)
   · next e s1 h1 =>
     cases h
-    obtain ⟨c1, -, W, t1, hW, herr⟩ := makeWritable_shape _ _ h1
-    refine ⟨c1, W, [], [], [], ?_, hW, by simp, Or.inl rfl, Or.inl rfl, fun _ _ _ => rfl, fun _ => ⟨rfl, rfl⟩, fun he => (by cases he),
+    obtain ⟨c1, M, B, t1, hM, hB, -, hB2, herr⟩ := backupStep_shape _ _ _ h1
+    refine ⟨c1, M, B, [], [], ?_, hM, hB, Or.inl rfl, Or.inl rfl, fun _ _ _ => ⟨rfl, rfl⟩, hB2, fun he => (by cases he),
       fun e he => (by cases he; exact (herr _ rfl).1)⟩
     rw [t1]; simp
 
@@ -1576,22 +1578,19 @@ theorem writeNow_shape (o : Options) (out : Bytes) (perm : PermResult) (sb : Boo
 
 abbrev NoChmod (op : FsOp) : Prop := ∀ p m, op ≠ FsOp.chmod p m
 
-/-- what `make_writable`'s `chmod` of `p` prepares: the backup (`rename` of `p`, or the creation of an empty backup file) or the
-    re-creation of `p` itself -/
-def isBk (p : Bytes) (op : FsOp) : Prop := (∃ b, op = FsOp.rename p b) ∨ ∃ b, op = FsOp.creat b
+/-- every `chmod p` among `ops` comes after a `creat p` (the permission callback after the write), or is DIRECTLY followed by the
+    `creat p` it prepares (`make_writable` runs right before the write, after the backup), or — only if `dangling` — is the very
+    last operation.
 
-/-- every `chmod p` among `ops` comes after a `creat p` (the permission callback after the write), or is followed — with only
-    `mkdir`s in between: the directories of a backup name like `bak/…` that do not exist yet — by the backup / creation it
-    prepares, or — only if `dangling` — is followed by such `mkdir`s only, up to the end.
-
-    CHANGED with the model change "`Backup::make_backup_for` creates the directories of the backup name": it was "is DIRECTLY
-    followed by the backup / creation" (`ops[i + 1]? = some op ∧ isBk p op`), resp. "is the very last operation"
-    (`i + 1 = ops.length`); see `C17.chmod_directly_false`. -/
+    CHANGED with the model change "the backup is taken before `make_writable`" (D93): the `chmod` of a read-only target now comes
+    after the backup (and its `mkdir`s) and directly before the `creat` of the target, so the statement is the strong one again
+    ("directly followed", and by the re-creation of the very path) — it had been weakened to "followed, with only `mkdir`s in
+    between, by the backup / a creation" when `Backup::make_backup_for` began to create the directories of the backup name. -/
 def ChmodLate (dangling : Prop) (ops : List FsOp) : Prop :=
   ∀ i p m, ops[i]? = some (FsOp.chmod p m) →
     (∃ j, j < i ∧ ops[j]? = some (FsOp.creat p)) ∨
-    (∃ k op, ops[i + 1 + k]? = some op ∧ isBk p op ∧ ∀ j, j < k → ∃ q, ops[i + 1 + j]? = some (FsOp.mkdir q)) ∨
-    (dangling ∧ ∀ j, i < j → j < ops.length → ∃ q, ops[j]? = some (FsOp.mkdir q))
+    ops[i + 1]? = some (FsOp.creat p) ∨
+    (dangling ∧ i + 1 = ops.length)
 
 theorem ChmodLate.of_noChmod {d : Prop} {ops : List FsOp} (h : ∀ op ∈ ops, NoChmod op) : ChmodLate d ops := by
   intro i p m hi
@@ -1616,67 +1615,43 @@ theorem ChmodLate.append {d : Prop} {a b : List FsOp} (ha : ChmodLate False a) (
   intro i p m hi
   by_cases hlt : i < a.length
   · rw [List.getElem?_append_left hlt] at hi
-    rcases ha i p m hi with ⟨j, hj, e⟩ | ⟨k, op, e, hop, hmk⟩ | ⟨f, _⟩
+    rcases ha i p m hi with ⟨j, hj, e⟩ | e | ⟨f, _⟩
     · exact .inl ⟨j, hj, by rw [List.getElem?_append_left (by omega)]; exact e⟩
-    · have h1 : i + 1 + k < a.length := getElem?_lt_of_some e
-      refine .inr (.inl ⟨k, op, by rw [List.getElem?_append_left h1]; exact e, hop, fun j hj => ?_⟩)
-      obtain ⟨q, hq⟩ := hmk j hj
-      exact ⟨q, by rw [List.getElem?_append_left (by omega)]; exact hq⟩
+    · have h1 : i + 1 < a.length := getElem?_lt_of_some e
+      exact .inr (.inl (by rw [List.getElem?_append_left h1]; exact e))
     · exact f.elim
   · have hge : a.length ≤ i := by omega
     rw [List.getElem?_append_right hge] at hi
-    rcases hb _ p m hi with ⟨j, hj, e⟩ | ⟨k, op, e, hop, hmk⟩ | ⟨f, hl⟩
+    rcases hb _ p m hi with ⟨j, hj, e⟩ | e | ⟨f, hl⟩
     · refine .inl ⟨j + a.length, by omega, ?_⟩
       rw [List.getElem?_append_right (by omega)]
       have : j + a.length - a.length = j := by omega
       rw [this]; exact e
-    · refine .inr (.inl ⟨k, op, ?_, hop, fun j hj => ?_⟩)
-      · rw [List.getElem?_append_right (by omega)]
-        have : i + 1 + k - a.length = i - a.length + 1 + k := by omega
-        rw [this]; exact e
-      · obtain ⟨q, hq⟩ := hmk j hj
-        refine ⟨q, ?_⟩
-        rw [List.getElem?_append_right (by omega)]
-        have : i + 1 + j - a.length = i - a.length + 1 + j := by omega
-        rw [this]; exact hq
-    · refine .inr (.inr ⟨f, fun j hj hjl => ?_⟩)
-      rw [List.length_append] at hjl
-      obtain ⟨q, hq⟩ := hl (j - a.length) (by omega) (by omega)
-      exact ⟨q, by rw [List.getElem?_append_right (by omega)]; exact hq⟩
+    · refine .inr (.inl ?_)
+      rw [List.getElem?_append_right (by omega)]
+      have : i + 1 - a.length = i - a.length + 1 := by omega
+      rw [this]; exact e
+    · refine .inr (.inr ⟨f, ?_⟩)
+      rw [List.length_append]
+      omega
 
-/-- one more operation in front: a `chmod` must be followed by `mkdir`s and then by what it prepares (or, dangling, by `mkdir`s only) -/
+/-- one more operation in front: a `chmod` must be directly followed by the `creat` it prepares (or, dangling, by nothing) -/
 theorem ChmodLate.cons {d : Prop} {x : FsOp} {l : List FsOp}
-    (hx : ∀ p m, x = FsOp.chmod p m →
-      (∃ (k : Nat) (op : FsOp), l[k]? = some op ∧ isBk p op ∧ ∀ j : Nat, j < k → ∃ q, l[j]? = some (FsOp.mkdir q)) ∨
-      (d ∧ ∀ j : Nat, j < l.length → ∃ q, l[j]? = some (FsOp.mkdir q)))
+    (hx : ∀ p m, x = FsOp.chmod p m → l[0]? = some (FsOp.creat p) ∨ (d ∧ l = []))
     (h : ChmodLate d l) : ChmodLate d (x :: l) := by
   intro i p m hi
   cases i with
   | zero =>
     simp only [List.getElem?_cons_zero, Option.some.injEq] at hi
-    rcases hx p m hi with ⟨k, op, e, hop, hmk⟩ | ⟨hd, hall⟩
-    · refine .inr (.inl ⟨k, op, ?_, hop, fun j hj => ?_⟩)
-      · have : 0 + 1 + k = k + 1 := by omega
-        rw [this, List.getElem?_cons_succ]; exact e
-      · have : 0 + 1 + j = j + 1 := by omega
-        rw [this, List.getElem?_cons_succ]; exact hmk j hj
-    · refine .inr (.inr ⟨hd, fun j hj hjl => ?_⟩)
-      obtain ⟨j', rfl⟩ : ∃ j', j = j' + 1 := ⟨j - 1, by omega⟩
-      rw [List.getElem?_cons_succ]
-      exact hall j' (by simp only [List.length_cons] at hjl; omega)
+    rcases hx p m hi with e | ⟨hd, hl⟩
+    · exact .inr (.inl (by rw [List.getElem?_cons_succ]; exact e))
+    · exact .inr (.inr ⟨hd, by rw [hl]; rfl⟩)
   | succ n =>
     have hi' : l[n]? = some (FsOp.chmod p m) := by simpa using hi
-    rcases h n p m hi' with ⟨j, hj, e⟩ | ⟨k, op, e, hop, hmk⟩ | ⟨f, hl⟩
+    rcases h n p m hi' with ⟨j, hj, e⟩ | e | ⟨f, hl⟩
     · exact .inl ⟨j + 1, by omega, by simpa using e⟩
-    · refine .inr (.inl ⟨k, op, ?_, hop, fun j hj => ?_⟩)
-      · have : n + 1 + 1 + k = (n + 1 + k) + 1 := by omega
-        rw [this, List.getElem?_cons_succ]; exact e
-      · have : n + 1 + 1 + j = (n + 1 + j) + 1 := by omega
-        rw [this, List.getElem?_cons_succ]; exact hmk j hj
-    · refine .inr (.inr ⟨f, fun j hj hjl => ?_⟩)
-      obtain ⟨j', rfl⟩ : ∃ j', j = j' + 1 := ⟨j - 1, by omega⟩
-      rw [List.getElem?_cons_succ]
-      exact hl j' (by omega) (by simp only [List.length_cons] at hjl; omega)
+    · exact .inr (.inl (by rw [List.getElem?_cons_succ]; exact e))
+    · exact .inr (.inr ⟨f, by simp only [List.length_cons]; omega⟩)
 
 /-- after its `creat`, a file may be written and `chmod`ed at will -/
 theorem ChmodLate.created {q : Bytes} {C' : List FsOp}
@@ -1691,62 +1666,47 @@ theorem ChmodLate.created {q : Bytes} {C' : List FsOp}
     · cases e
       exact .inl ⟨0, by omega, rfl⟩
 
-theorem getElem?_of_all_mkdir {M : List FsOp} (hM : ∀ op ∈ M, ∃ q, op = FsOp.mkdir q) (rest : List FsOp) (j : Nat)
-    (hj : j < M.length) : ∃ q, (M ++ rest)[j]? = some (FsOp.mkdir q) := by
-  rw [List.getElem?_append_left hj]
-  obtain ⟨q, hq⟩ := hM M[j] (List.getElem_mem hj)
-  exact ⟨q, by rw [List.getElem?_eq_getElem hj, hq]⟩
-
-/-- the blocks `W ++ M ++ B ++ C` of `writeNow_shape` -/
-theorem ChmodLate.of_shape {d : Prop} {q : Bytes} {W M B C : List FsOp}
-    (hW : W = [] ∨ ∃ m, W = [FsOp.chmod q m])
+/-- the blocks `M ++ B ++ W ++ C` of `writeNow_shape` -/
+theorem ChmodLate.of_shape {d : Prop} {q : Bytes} {M B W C : List FsOp}
     (hM : ∀ op ∈ M, ∃ x, op = FsOp.mkdir x)
-    (hB : B = [] ∨ ∃ x, B = [x] ∧ isBk q x)
+    (hB : B = [] ∨ (∃ a b, B = [FsOp.rename a b]) ∨ ∃ b, B = [FsOp.creat b])
+    (hW : W = [] ∨ ∃ m, W = [FsOp.chmod q m])
     (hC : C = [] ∨ ∃ C', C = FsOp.creat q :: C' ∧ ∀ op ∈ C', (∃ b, op = FsOp.write q b) ∨ ∃ m, op = FsOp.chmod q m)
-    (hd : d ∨ C ≠ []) : ChmodLate d (W ++ M ++ B ++ C) := by
+    (hd : d ∨ C ≠ []) : ChmodLate d (M ++ B ++ W ++ C) := by
   have lM : ChmodLate False M := by
     refine ChmodLate.of_noChmod ?_
     intro op hop
     obtain ⟨x, rfl⟩ := hM op hop
     exact fun _ _ => nofun
   have lB : ChmodLate False B := by
-    rcases hB with rfl | ⟨x, rfl, hx⟩
+    rcases hB with rfl | ⟨a, b, rfl⟩ | ⟨b, rfl⟩
     · exact ChmodLate.nil
     · refine ChmodLate.of_noChmod ?_
       intro op hop
       rw [List.mem_singleton.1 hop]
-      rcases hx with ⟨b, rfl⟩ | ⟨b, rfl⟩ <;> exact fun _ _ => nofun
+      exact fun _ _ => nofun
+    · refine ChmodLate.of_noChmod ?_
+      intro op hop
+      rw [List.mem_singleton.1 hop]
+      exact fun _ _ => nofun
   have lC : ChmodLate False C := by
     rcases hC with rfl | ⟨C', rfl, h⟩
     · exact ChmodLate.nil
     · exact ChmodLate.created h
-  have lMBC : ChmodLate False (M ++ (B ++ C)) := lM.append (lB.append lC)
+  have lWC : ChmodLate d (W ++ C) := by
+    rcases hW with rfl | ⟨m, rfl⟩
+    · exact lC.mono
+    · show ChmodLate d (FsOp.chmod q m :: C)
+      refine ChmodLate.cons ?_ lC.mono
+      intro p m' hpm
+      cases hpm
+      rcases hC with rfl | ⟨C', rfl, _⟩
+      · rcases hd with hd | hd
+        · exact .inr ⟨hd, rfl⟩
+        · exact absurd rfl hd
+      · exact .inl rfl
   rw [List.append_assoc, List.append_assoc]
-  rcases hW with rfl | ⟨m, rfl⟩
-  · exact lMBC.mono
-  · show ChmodLate d (FsOp.chmod q m :: (M ++ (B ++ C)))
-    refine ChmodLate.cons ?_ lMBC.mono
-    intro p m' hpm
-    cases hpm
-    cases hBC : B ++ C with
-    | nil =>
-      have hCn : C = [] := (List.append_eq_nil_iff.1 hBC).2
-      rcases hd with hd | hd
-      · refine .inr ⟨hd, fun j hj => ?_⟩
-        rw [List.append_nil] at hj ⊢
-        obtain ⟨x, hx⟩ := getElem?_of_all_mkdir hM [] j hj
-        exact ⟨x, by simpa using hx⟩
-      · exact absurd hCn hd
-    | cons x rest =>
-      have hx : isBk q x := by
-        rcases hB with rfl | ⟨x', rfl, hx⟩
-        · rcases hC with rfl | ⟨C', rfl, _⟩
-          · cases hBC
-          · cases hBC; exact Or.inr ⟨_, rfl⟩
-        · cases hBC; exact hx
-      refine .inl ⟨M.length, x, ?_, hx, fun j hj => getElem?_of_all_mkdir hM _ j hj⟩
-      rw [List.getElem?_append_right (Nat.le_refl _), Nat.sub_self]
-      rfl
+  exact lM.append (lB.append lWC)
 
 def LateR (s s' : DState) : Prop := ∃ ops, s'.trace = s.trace ++ ops ∧ ChmodLate False ops
 def LateE (e : Exn) (s s' : DState) : Prop := ∃ ops, s'.trace = s.trace ++ ops ∧ ChmodLate (e = .systemError) ops
@@ -1769,18 +1729,18 @@ theorem writeNow_late (o : Options) (out : Bytes) (perm : PermResult) (sb : Bool
   have key : ∀ s s' r, (writeNow o out perm sb content nm).run s = (r, s') → ∀ d : Prop, (d ∨ r = .ok ()) →
       ∃ ops, s'.trace = s.trace ++ ops ∧ ChmodLate d ops := by
     intro s s' r h d hd
-    obtain ⟨-, W, M, B, C, t, hW, hM, hB, hC, -, -, hok, -⟩ := writeNow_shape o out perm sb content nm h
-    refine ⟨W ++ M ++ B ++ C, by rw [t]; simp only [List.append_assoc],
-      ChmodLate.of_shape hW (fun op hop => let ⟨_, _, e⟩ := hM op hop; ⟨_, e⟩) ?_ hC (hd.imp id hok)⟩
+    obtain ⟨-, M, B, W, C, t, hM, hB, hW, hC, -, -, hok, -⟩ := writeNow_shape o out perm sb content nm h
+    refine ⟨M ++ B ++ W ++ C, by rw [t]; simp only [List.append_assoc],
+      ChmodLate.of_shape (fun op hop => let ⟨_, _, e⟩ := hM op hop; ⟨_, e⟩) ?_ hW hC (hd.imp id hok)⟩
     rcases hB with h | h | h
     · exact Or.inl h
-    · exact Or.inr ⟨_, h, Or.inl ⟨_, rfl⟩⟩
-    · exact Or.inr ⟨_, h, Or.inr ⟨_, rfl⟩⟩
+    · exact Or.inr (Or.inl ⟨_, _, h⟩)
+    · exact Or.inr (Or.inr ⟨_, h⟩)
   constructor
   · intro s a s' h
     exact key s s' _ h False (Or.inr rfl)
   · intro s e s' h
-    obtain ⟨-, W, M, B, C, -, -, -, -, -, -, -, -, herr⟩ := writeNow_shape o out perm sb content nm h
+    obtain ⟨-, M, B, W, C, -, -, -, -, -, -, -, -, herr⟩ := writeNow_shape o out perm sb content nm h
     exact key s s' _ h _ (Or.inl (herr e rfl))
 
 
